@@ -270,8 +270,6 @@ Section View.
   Variables names varnames freevars cellvars : list str.
   Variable ks : list K.
 
-  Let HA := cfg_have_argument c.
-  Let EXT := cfg_extended_arg c.
 
   Definition pview (p : pinstr) : Z * Z * dval K :=
     let '(op, a, n, first, next) := p in
@@ -469,4 +467,99 @@ Section View.
         * intros X. apply In_range2_lt in X. lia.
   Qed.
 
+  (** * 8. bytes_to_blocks: the view of the blocks is the dis view *)
+
+  Lemma b2b_view b lm0 first table bt a blocks addl lm' :
+    cfg_ops_wf c = true -> code_ok c b = true ->
+    targets_ok c b names varnames freevars cellvars ks = true ->
+    table_ok c table (zlen b) = true ->
+    to_line_mapping (cfg_v310 c) table (zlen b) = OK lm0 ->
+    bytes_to_blocks keq c b (modify_line_offsets lm0 first) names varnames freevars cellvars ks bt a
+      = OK (blocks, addl, lm') ->
+    data_view blocks = dis_view c b names varnames freevars cellvars ks (raw_entries table) first.
+  Proof.
+    intros W U Tg Tb M H.
+    destruct (ops_wf_spec c W) as [HE _].
+    unfold bytes_to_blocks in H. cbv zeta in H.
+    cbn [d_consts d_names d_varnames d_cellvars] in H.
+    match type of H with
+    | match ?X with _ => _ end = _ => destruct X as [st1|e] eqn:Est; [|discriminate]
+    end.
+    assert (S1 : st_ok st1).
+    { destruct (has_docstring bt).
+      - destruct (found_index keq (toargs_init ks 0) 0) as [[[x ov] t]|] eqn:F; [|discriminate].
+        apply found_index_spec in F as [_ F]. inversion Est; subst st1.
+        unfold st_ok. cbn [d_consts d_names d_varnames d_cellvars]. rewrite F.
+        repeat split; reflexivity.
+      - inversion Est; subst. repeat split; reflexivity. }
+    destruct (parse_bytes c b 0 0 0) as [ps|e] eqn:Ep; [|discriminate].
+    match type of H with
+    | match ?X with _ => _ end = _ => destruct X as [[[ois lm1] st2]|e] eqn:Ed; [|discriminate]
+    end.
+    destruct (split_blocks (sorted_set (0 :: jump_targets ois)) ois [] false)
+      as [blocks0|e] eqn:Es; [|discriminate].
+    repeat dmatch H. inversion H; subst blocks0 lm1 addl. clear H.
+    destruct (parse_dis_gen HE b 0 0 0 ps U ltac:(lia) ltac:(lia) ltac:(reflexivity)
+                            ltac:(reflexivity) Ep) as [HL Hnn].
+    change (0 =? 0) with true in HL. cbv iota in HL.
+    pose proof (decode_instrs_view W _ _ _ _ _ _ S1 Hnn Ed) as Hv.
+    pose proof (decode_instrs_offsets _ _ _ _ _ _ _ _ _ Ed) as Hoff.
+    pose proof (parse_bytes_chained c b 0 0 0 ps ltac:(lia) Ep) as Hch.
+    pose proof (decode_instrs_lines _ _ _ _ _ _ _ Hch Ed) as Hln.
+    pose proof (parse_first_range c b 0 0 0 ps ltac:(lia) Ep) as Hrg.
+    destruct (parse_bytes_offsets _ _ _ Ep) as [Hinc [Hfirst _]].
+    unfold data_view, dis_view. cbv zeta. rewrite HL, <- Hv.
+    assert (Hne : ois = [] \/ ois <> []) by (destruct ois; [left; reflexivity|right; discriminate]).
+    destruct Hne as [->|Hne].
+    { cbn [split_blocks] in Es. inversion Es; subst blocks. reflexivity. }
+    assert (Hhd : exists i r, ois = (0, i) :: r).
+    { destruct ois as [|[o i] r]; [congruence|].
+      destruct ps as [|p ps']; [discriminate|]. cbn [map fst] in Hoff. injection Hoff as Ho _.
+      rewrite (Hfirst p ps' eq_refl) in Ho. subst o. eauto. }
+    assert (Hoi : offsets_increasing ois) by (unfold offsets_increasing; now rewrite Hoff).
+    assert (Hfo : map (fun x : Z * instr_ K => fst (fst (oview x))) ois = map fst ois) by reflexivity.
+    assert (Hts : targets_are_starts ois).
+    { intros t Ht. apply jump_targets_In in Ht as [o [i [rel [Hin Ei]]]].
+      unfold targets_ok in Tg. cbv zeta in Tg. rewrite HL, <- Hv in Tg. rewrite forallb_forall in Tg.
+      specialize (Tg (oview (o, i)) (in_map oview _ _ Hin)). unfold oview in Tg at 1.
+      cbn [snd fst] in Tg. rewrite Ei in Tg. cbn [raw_val] in Tg. apply zmem_In in Tg.
+      rewrite map_map, Hfo in Tg. exact Tg. }
+    destruct (split_blocks_partition ois Hne Hoi Hhd Hts) as [blocks' [Es' [Hc [Hnb [Hbs [Hlen Hj]]]]]].
+    rewrite Es in Es'. inversion Es'; subst blocks'. clear Es'.
+    assert (Hlo : length (map fst ois) = length (concat blocks))
+      by (rewrite Hc, !map_length; reflexivity).
+    assert (Hnd : NoDup (map fst ois)) by (apply incr_NoDup; exact Hoi).
+    rewrite Hc, !map_map. apply map_ext_in. intros [o i] Hin.
+    unfold oview at 1. cbn [fst snd]. rewrite retarget_name, retarget_line. f_equal.
+    - destruct (i_arg i) eqn:EA;
+        try (rewrite retarget_nonjump; [rewrite EA; reflexivity|intros ? ? X; rewrite EA in X; discriminate X]).
+      destruct (Hj o i _ _ Hin EA) as [k [Ek [Hk Hn]]]. rewrite Ek. cbn [data_val raw_val]. f_equal.
+      destruct (bfi_starts blocks (map fst ois) 0 (Z.to_nat k) target Hnb Hlo Hn) as [j [J1 J2]].
+      rewrite znth_nonneg by lia. rewrite J1. unfold index_of_offset. rewrite map_map, Hfo.
+      rewrite (index_of_nth _ _ _ Hnd J2). lia.
+    - rewrite Forall_forall in Hln, Hrg. specialize (Hln (o, i) Hin). cbn [fst snd] in Hln.
+      assert (Hino : In o (map p_first ps)) by (rewrite <- Hoff; apply (in_map fst _ _ Hin)).
+      apply in_map_iff in Hino as [p [Hp1 Hp2]]. specialize (Hrg p Hp2). rewrite Hp1 in Hrg.
+      destruct Hrg as [Hev Hr].
+      rewrite (line_ok c table (zlen b) first lm0 o Tb M ltac:(lia)) in Hln
+        by (rewrite <- Hev; f_equal; lia).
+      now inversion Hln.
+  Qed.
+
 End View.
+
+(** * 9. The theorem *)
+
+Theorem C02_view : S_C02_view.
+Proof.
+  unfold S_C02_view. intros c code ks d Wf H. unfold view_wf in Wf. split_andb.
+  destruct (decode_code_blocks c code ks d H) as [lm0 [bt [a [addl [lm' [M B]]]]]].
+  eapply b2b_view; eassumption.
+Qed.
+
+Print Assumptions C02_view.
+Print Assumptions b2b_view.
+Print Assumptions parse_dis_gen.
+Print Assumptions to_arg_spec.
+Print Assumptions line_ok.
+Check C02_view.
